@@ -56,6 +56,7 @@ func (r *ExecResult) Choices() []int {
 
 type Violation struct {
 	Scenario string      `json:"scenario"`
+	Case     string      `json:"case,omitempty"`
 	Bound    int         `json:"deviations"`
 	Result   *ExecResult `json:"result"`
 	Replays  int         `json:"replays_identical"`
@@ -269,6 +270,9 @@ func firstLine(s string) string {
 	}
 	return s
 }
+
+// PanicSite extracts the first kafka-go frame of a stack trace.
+func PanicSite(stack string) string { return panicSite(stack) }
 
 func panicSite(stack string) string {
 	for _, l := range strings.Split(stack, "\n") {
